@@ -55,8 +55,24 @@ def market_and_configs():
              universe={'kind': 'dynamic', 'entries': {'EQ:BBB': before, 'EQ:CCC': day2, 'EQ:AAA': day2}}),
         dict(base, name='invvol-buyhold', alpha={'kind': 'inv_vol', 'lookback': 2}, rebalance='end_of_month',
              long_only=True, buffer=0.0),
+        # an asset whose data start after the session does: prices are asked before its first bar (the run
+        # stops with the documented NaN-price error; that outcome is part of the digest)
+        dict(base, name='late-data-momentum', market='late', alpha={'kind': 'mom_top1', 'lookback': 1}, rebalance='daily',
+             long_only=True, buffer=0.05),
     ]
     return market, cfgs
+
+
+def market_for(cfg):
+    """most configurations share one market; 'late-data' uses one where CCC's file starts three days late"""
+    from .. import refmodel as rm
+    from .. import sessionlab as sl
+    market, _ = market_and_configs()
+    if cfg.get('market') == 'late':
+        days = rm.bdays(datetime.date(2020, 2, 17), datetime.date(2020, 3, 6))
+        market = dict(market)
+        market['CCC'] = [r for r in market['CCC'] if r[0] >= datetime.date(2020, 2, 27)]
+    return market
 
 
 def digest_obs(obs):
@@ -212,6 +228,7 @@ def explore_config(args):
     idx, bound, max_execs = args
     market, cfgs = market_and_configs()
     cfg = cfgs[idx]
+    market = market_for(cfg)
     d = scratch_dir('qsc18-')
     load_everything()
     seam, restore, nmods = install_seams()
@@ -314,6 +331,7 @@ def pristine_digest(j):
     """digest of configuration j in a process that has done nothing else"""
     from .. import sessionlab as sl
     market, cfgs = market_and_configs()
+    market = market_for(cfgs[j])
     d = scratch_dir('qsc18p-')
     try:
         sl.write_market(d, market)
@@ -329,6 +347,7 @@ def shared_source(args):
     import pandas as pd
     i, j, mode, want = args
     market, cfgs = market_and_configs()
+    market = market_for(cfgs[j])
     d = scratch_dir('qsc18s-')
     viols = []
     try:
@@ -395,9 +414,12 @@ def child_main():
     d = scratch_dir('qsc18c-')
     out = {'witness_full': list(set(NAMES)), 'witness_diff': list(set(NAMES) - set(NAMES[:1])), 'digests': {}}
     try:
-        sl.write_market(d, market)
         for cfg in cfgs:
-            handler, _ = sl.load_handler(d, market)
+            for f in os.listdir(d):
+                os.unlink(os.path.join(d, f))
+            m = market_for(cfg)
+            sl.write_market(d, m)
+            handler, _ = sl.load_handler(d, m)
             out['digests'][cfg['name']] = digest_obs(sl.run_session(cfg, handler))
             mk.clear_caches()
     finally:
